@@ -130,11 +130,14 @@ HEADER_KINDS = ("magic", "size", "pal", "flag", "title", "page")
 
 
 def _offset(rng, case_len, offs):
-    """offs = (all structural offsets, header-field offsets)"""
+    """offs = (all structural offsets, {header kind: offsets}).  A quarter of the draws pick a
+    header *kind* first (magic, size, palette, flag, title, page start) and then one of its
+    bytes, so that the single magic byte is hit as often as the sixteen palette bytes."""
     allo, hdr = offs
     c = rng.random()
     if hdr and c < 0.25:
-        return min(rng.choice(hdr), max(0, case_len))
+        kind = rng.choice(sorted(hdr))
+        return min(rng.choice(hdr[kind]), max(0, case_len))
     if allo and c < 0.6:
         o = rng.choice(allo) + rng.choice((0, 0, 0, 1, -1, 2))
         return min(max(0, o), max(0, case_len))
@@ -154,7 +157,10 @@ def gen_fault(rng, kind, n, offs):
     if kind == "bitflip":
         return {"kind": kind, "at": _offset(rng, max(0, n - 1), offs), "bit": rng.randrange(8)}
     if kind == "set":
-        v = rng.choice((0, 1, 0x7F, 0x80, 0xFF, 0x3F, 0x40, rng.getrandbits(8), 2, 191, 193))
+        # boundary values of the formats' fields: type bytes 0..4, palette size 63/64,
+        # composite table 24/25, VEF group split 127..129, CM3 lines 191..193, sign bit
+        v = rng.choice((0, 1, 2, 3, 4, 16, 24, 25, 0x3F, 0x40, 0x41, 0x7F, 0x80, 0x81, 191, 192, 193,
+                        0xFE, 0xFF, rng.getrandbits(8), rng.getrandbits(8)))
         return {"kind": kind, "at": _offset(rng, max(0, n - 1), offs), "val": v}
     if kind == "pad":
         fill = rng.choice(("1a", "00", "rand", "block", "ff"))
@@ -183,7 +189,11 @@ def gen_plan(rng, case, enabled=None):
     nf = rng.choice((1, 1, 1, 2, 2, 3))
     plan = []
     n = len(case.data)
-    offs = (case.offsets(), case.offsets(HEADER_KINDS))
+    hdr = {}
+    for o, k in case.smap:
+        if k in HEADER_KINDS:
+            hdr.setdefault(k, []).append(o)
+    offs = (case.offsets(), hdr)
     weighted = [k for k in kinds for _ in range(WEIGHT.get(k, 1))]
     for _ in range(nf):
         k = rng.choice(weighted)
